@@ -5,7 +5,7 @@ use crate::actions::*;
 use crate::chain::*;
 use crate::deploy::*;
 use crate::explore::*;
-use crate::hubcore::{action_class, fx_attr, fx_sum_undelegate, sym_amounts, time_actions};
+use crate::hubcore::{action_class, fx_sum_undelegate, sym_amounts, time_actions};
 use crate::obs::*;
 use serde_json::json;
 use sha2::{Digest, Sha256};
@@ -331,7 +331,8 @@ impl Scenario for UnbondLc {
             let col = |o: &HubObs| -> u128 {
                 o.requests.get(sender).and_then(|r| r.iter().find(|x| x.0 == po.batch.id)).map(|x| if tok == BSEI { x.1 } else { x.2 }).unwrap_or(0)
             };
-            let credited: u128 = if USERS.contains(&sender) { col(qo).saturating_sub(col(po)) } else { fx_attr(out.fx(), HUB, "unbonded_amount").and_then(|s| s.parse().ok()).unwrap_or(amt) };
+            let col_c = |c: &Chain| -> u128 { hub_requests(c, sender).iter().find(|x| x.0 == po.batch.id).map(|x| if tok == BSEI { x.1 } else { x.2 }).unwrap_or(0) };
+            let credited: u128 = if USERS.contains(&sender) { col(qo).saturating_sub(col(po)) } else { col_c(post).saturating_sub(col_c(pre)) };
             let e = g2.ledger.entry((sender.to_string(), po.batch.id)).or_insert((0, 0));
             if tok == BSEI {
                 e.0 += credited.min(amt);
@@ -714,7 +715,7 @@ pub fn c09_matured_probe(c: &Chain, o: &HubObs, cx: &mut Cx) {
                 Ok(_) => continue,
                 Err(e) => {
                     // a claim in an already released batch has an exact value: one unit of it is enough
-                    if released_value >= 1 || (val >= 1 + 3 * n as u128 && (clean || round > 0 || !e.contains("No withdrawable"))) {
+                    if released_value >= 1 || (val >= 1 + 3 * n as u128 && (clean || round > 0 || is_hard_failure(&e))) {
                         let what = if e.contains("No withdrawable") { "claims worth at least one unit refused after the unbonding period".to_string() } else { format!("withdraw after the unbonding period fails: {}", classify_err(&e)) };
                         cx.viol("C09.can_withdraw", what, format!("{} (attempt {}): matured value {} over {} claims: {}", u, round + 1, val, n, e));
                     }
@@ -723,6 +724,11 @@ pub fn c09_matured_probe(c: &Chain, o: &HubObs, cx: &mut Cx) {
             }
         }
     }
+}
+
+/// failures that can not be the hub's plain "nothing to pay out yet" answer, whatever that answer's wording is
+pub fn is_hard_failure(e: &str) -> bool {
+    e.contains("Overflow") || e.contains("overflow") || e.contains("insufficient funds") || e.contains("can not be lower than prev") || e.contains("PANIC")
 }
 
 pub fn classify_err(e: &str) -> String {
